@@ -13,71 +13,24 @@ import (
 func pj(v interface{}) string { b, _ := json.Marshal(v); return string(b) }
 
 func probe() int {
-	// --- V2 surplus lifecycle
 	c := DefaultCfg()
+	c.Sur, c.Nf0, c.A2 = false, -1, 100
 	w := NewWorld(c)
-	fmt.Println("init   ", pj(w.ProjectA()))
-	br := w.Block(6)
-	fmt.Println("block  ", br, pj(w.ProjectA()))
-	r := w.BidV2("u1", 1, 5, "uharbor")
-	fmt.Println("bid u1 5", r.OK, r.Err, pj(w.ProjectA()))
-	r = w.BidV2("u2", 1, 5, "uharbor")
-	fmt.Println("bid u2 5", r.OK, r.Err)
-	r = w.BidV2("u2", 1, 6, "uharbor")
-	fmt.Println("bid u2 6", r.OK, r.Err, pj(w.ProjectA()))
-	br = w.Block(201)
-	fmt.Println("block  ", br, pj(w.ProjectA()))
-	// --- V1 surplus lifecycle
-	w = NewWorld(c)
-	p, ps := w.HookV1()
-	fmt.Println("hookv1 ", p, ps, pj(w.ProjectA()))
-	r = w.BidV1Surplus("u1", 1, 5, "uharbor")
-	fmt.Println("bid u1 5", r.OK, r.Err, pj(w.ProjectA()))
-	r = w.BidV1Surplus("u2", 1, 5, "uharbor")
-	fmt.Println("bid u2 5", r.OK, r.Err)
-	r = w.BidV1Surplus("u2", 1, 6, "uharbor")
-	fmt.Println("bid u2 6", r.OK, r.Err, pj(w.ProjectA()))
-	w.Block(31)
-	p, ps = w.HookV1()
-	fmt.Println("hookv1 ", p, ps, pj(w.ProjectA()))
-	// --- V2 debt
-	c.Sur, c.Debt, c.Nf0 = false, true, 5
-	w = NewWorld(c)
-	br = w.Block(6)
-	fmt.Println("D2 block  ", br, pj(w.ProjectA()))
-	r = w.BidV2("u1", 1, 20, "uharbor")
-	fmt.Println("bid u1 20", r.OK, r.Err, pj(w.ProjectA()))
-	r = w.BidV2("u2", 1, 17, "uharbor")
-	fmt.Println("bid u2 17", r.OK, r.Err)
-	r = w.BidV2("u2", 1, 16, "uharbor")
-	fmt.Println("bid u2 16", r.OK, r.Err, pj(w.ProjectA()))
-	br = w.Block(201)
-	fmt.Println("block  ", br, pj(w.ProjectA()))
-	// --- V1 debt
-	w = NewWorld(c)
-	p, ps = w.HookV1()
-	fmt.Println("D1 hookv1 ", p, ps, pj(w.ProjectA()))
-	r = w.BidV1Debt("u1", 1, 20, "uharbor", 10, "ucmst")
-	fmt.Println("bid u1 20", r.OK, r.Err, pj(w.ProjectA()))
-	r = w.BidV1Debt("u2", 1, 19, "uharbor", 10, "ucmst")
-	fmt.Println("bid u2 19", r.OK, r.Err)
-	r = w.BidV1Debt("u2", 1, 18, "uharbor", 10, "ucmst")
-	fmt.Println("bid u2 18", r.OK, r.Err, pj(w.ProjectA()))
-	w.Block(31)
-	p, ps = w.HookV1()
-	fmt.Println("hookv1 ", p, ps, pj(w.ProjectA()))
-	// --- generic
-	c.Debt = false
-	w = NewWorld(c)
-	fmt.Println("G start", w.StartGeneric(7, 12), pj(w.ProjectA()))
-	r = w.BidV2("u1", 1, 11, "ucmst")
-	fmt.Println("bid u1 11", r.OK, r.Err)
-	r = w.BidV2("u1", 1, 12, "ucmst")
-	fmt.Println("bid u1 12", r.OK, r.Err, pj(w.ProjectA()))
-	r = w.BidV2("u2", 1, 15, "ucmst")
-	fmt.Println("bid u2 15", r.OK, r.Err, pj(w.ProjectA()))
-	br = w.Block(201)
-	fmt.Println("block  ", br, pj(w.ProjectA()))
+	fmt.Println(w.OpenDutch(50, 40))
+	fmt.Println(w.LbDeposit("u1", 1, 2, 5, 44, "ucmst").OK, w.LbDeposit("u2", 1, 2, 7, 10, "ucmst").OK)
+	last := ""
+	for i := 0; i < 110; i++ {
+		br := w.Block(1)
+		p := w.ProjectB()
+		cur := pj(p.Dep) + pj(p.Bal) + fmt.Sprint(p.Total, br.Panic)
+		if cur != last {
+			for _, a := range w.App.NewaucKeeper.GetAuctions(w.Ctx) {
+				fmt.Println(i, a.CollateralTokenAuctionPrice, a.DebtToken, a.CollateralToken)
+			}
+			fmt.Println(i, cur, pj(p.Held))
+		}
+		last = cur
+	}
 	return 0
 }
 
@@ -111,6 +64,9 @@ func Main(args []string) int {
 	case "A":
 		edges = WalkA(lg, graphs)
 		DriveA(lg, *seed, *runs, *steps)
+	case "B":
+		edges = WalkB(lg, graphs)
+		DriveB(lg, *seed, *runs, *steps)
 	default:
 		fmt.Fprintln(os.Stderr, "unknown world", *world)
 		return 2
